@@ -48,6 +48,9 @@ where
     Fut: Future<Output = T>,
 {
     let rt = simnet::runtime(sim, sim.content_seed());
+    // also when a panic unwinds out of the scenario: the trace is frozen before the runtime (and
+    // with it every task, in an order the simulator does not own) is dropped
+    let _freeze = simnet::freeze_guard(sim);
     let out = rt.block_on(async {
         let t0 = tokio::time::Instant::now();
         let r = tokio::time::timeout(horizon, f()).await;
